@@ -114,6 +114,8 @@ func TestSim(t *testing.T) {
 		runOrchestrate(t)
 	case "determinism":
 		runDeterminism(t)
+	case "lockchild":
+		LockChildMain(os.Stdin, os.Stdout)
 	default:
 		t.Fatalf("unknown mode %q", *fMode)
 	}
